@@ -765,7 +765,7 @@ Lemma rw_try_block_set : forall oid write e st,
 Proof.
   intros oid write e st. unfold rw_try_block, rw_try_set.
   destruct (me e) as [m|]; [|reflexivity].
-  destruct (get_obj st oid) as [[| |h s p|w rs s p| | | | | | ]|]; try reflexivity.
+  destruct (get_obj st oid) as [[| |h s p|w rs s p| | | | | | | | | ]|]; try reflexivity.
   destruct write; destruct w; destruct rs; destruct p; try reflexivity;
     destruct (existsb _ _); reflexivity.
 Qed.
@@ -776,7 +776,7 @@ Lemma rw_try_block_prefix_set : forall oid write e st,
 Proof.
   intros oid write e st. unfold rw_try_block_prefix, rw_try_set.
   destruct (me e) as [m|]; [|reflexivity].
-  destruct (get_obj st oid) as [[| |h s p|w rs s p| | | | | | ]|]; try reflexivity.
+  destruct (get_obj st oid) as [[| |h s p|w rs s p| | | | | | | | | ]|]; try reflexivity.
   destruct write; destruct w; destruct rs; try reflexivity;
     destruct (existsb _ _); reflexivity.
 Qed.
@@ -1170,7 +1170,7 @@ Lemma mutex_check_block_unchanged : forall oid e st e' st' b,
 Proof.
   intros oid e st e' st' b Hc. unfold mutex_check_block in Hc.
   destruct (me e) as [m|]; [|discriminate].
-  destruct (get_obj st oid) as [[| |h s p| | | | | | | ]|]; try discriminate.
+  destruct (get_obj st oid) as [[| |h s p| | | | | | | | | | ]|]; try discriminate.
   destruct (sm_closed s).
   - injection Hc as <- <- <-. auto.
   - destruct h as [h'|]; [destruct (Nat.eqb h' m); [discriminate|]|]; injection Hc as <- <- <-; auto.
@@ -1419,7 +1419,7 @@ Lemma rw_check_block_unchanged : forall oid e st e' st' b,
 Proof.
   intros oid e st e' st' b Hc. unfold rw_check_block in Hc.
   destruct (me e) as [m|]; [|discriminate].
-  destruct (get_obj st oid) as [[| | |w rs s p| | | | | | ]|]; try discriminate.
+  destruct (get_obj st oid) as [[| | |w rs s p| | | | | | | | | ]|]; try discriminate.
   destruct (sm_closed s).
   - injection Hc as <- <- <-. auto.
   - destruct (_ || _); [discriminate|]. injection Hc as <- <- <-. auto.
